@@ -41,6 +41,7 @@ CONSTANTS Kind,       \* "value" | "command" | "supply" | "demand" | "map"
           Remotes,    \* remote ids that may ask to sync
           MaxSyncQ,   \* bound on the length of a sync_queue (value-like lanes; a remote may ask again before it is answered)
           MaxFifo,    \* bound on a supply lane's event_queue
+          MaxMapSync, \* bound on the unanswered sync requests of one remote on a map lane (each has its own snapshot)
           Vias,       \* the ways a call may arrive: subset of {"cmd", "h", "replace", "direct"} (they differ in the code path
                       \* exercised on the real lane, not in their effect on the state: one of them is enough for B3)
           Ghost,      \* maintain P's ghost state
@@ -282,7 +283,7 @@ MTakeDrop(kind, n) ==
 \* MapLane::sync: keys = content.keys() (key order for an ordered backing); queue.sync(id, keys)
 MSync(r) ==
     /\ Kind = "map"
-    /\ \A j \in DOMAIN syncqs : syncqs[j].id # r         \* bound: one unanswered request per remote
+    /\ Cardinality({j \in DOMAIN syncqs : syncqs[j].id = r}) < MaxMapSync
     /\ syncqs' = Append(syncqs, [id |-> r, keys |-> PSorted(Present)])
     /\ p' = G(LPSync(p, r, TRUE))
     /\ lastAct' = [k |-> "sync", id |-> r, mod |-> TRUE, cur |-> CurMap]
@@ -382,7 +383,7 @@ Next ==
     \/ \E c \in Keys : MRemoveCmd(c) \/ MRemoveHandler(c)
     \/ MClearCmd \/ MClearHandler
     \/ \E c \in Keys, to \in 0..NV : MTransformHandler(c, to) \/ MTransformDirect(c, to)
-    \/ \E n \in 0..NK : MTake(n) \/ MDrop(n)
+    \/ \E n \in 0..(NK + 1) : MTake(n) \/ MDrop(n)
     \/ \E r \in Remotes : MSync(r)
     \/ MWrite
 
